@@ -233,12 +233,13 @@ theorem loop_condition_runs_once_more (fns : List FnDef) (c : Expr) (b : Block) 
   i.e. built from literals, variables, host calls and method calls (receiver
   and arguments), the strict binary operators, `&&`, `||`, `!`, unary `-`,
   `if`/`else`, `if`, blocks with `let` and expression statements, assignment,
-  compound assignment, `while` (any number of iterations) and `return`.
+  compound assignment, `while` (any number of iterations), `return`,
+  `accept`/`reject` (the operand stays lazy until it is stored in the variant),
+  `Option.Some`/`Option.None` and `?` (leaves the function on `None`).
   Missing from the model (and so from the theorem): script-function calls,
-  `match` (guards), `for`, `?`, `Some`/`None`, enum constructors, records,
-  field access, lists, f-strings, `accept`/`reject`; `drop` instructions and
-  the `stack_slots` bookkeeping; the passage from structured MIR to the
-  block/label CFG. -/
+  `match` (guards), `for`, user enum constructors, records, field access,
+  lists, f-strings; `drop` instructions and the `stack_slots` bookkeeping; the
+  passage from structured MIR to the block/label CFG. -/
 
 open RotoV.LowerS in
 /-- Expression level: running the code emitted for `e` and then evaluating the
@@ -407,6 +408,16 @@ def demoFn2 : FnDef :=
 example : (lowerFn demoFn2).isSome = true := by decide
 example : bodyValue (evalBlock [] 40 [(0, .int 5)] demoFn2.body).out = some (.int 1) := by decide
 example : ((evalBlock [] 40 [(0, .int 5)] demoFn2.body).tr).length = 4 := by decide
+-- … with `?`, `Some`, `accept`/`reject`: `{ let x1 = emit_o(1, x0)?; if emit_b(2, x1 == 4) { reject emit(3, x1); }; accept emit(4, x1) }`
+def demoFn3 : FnDef :=
+  ⟨[0], .let_ 1 (.try (.host 4 (.cons (.lit (.int 1)) (.cons (.var 0) .nil))))
+    (.stmt (.if1 (.host 1 (.cons (.lit (.int 2)) (.cons (.bin .eq (.var 1) (.lit (.int 4))) .nil)))
+        (.stmt (.reject (.host 0 (.cons (.lit (.int 3)) (.cons (.var 1) .nil)))) .nil))
+    (.last (.accept (.host 0 (.cons (.lit (.int 4)) (.cons (.var 1) .nil))))))⟩
+example : (lowerFn demoFn3).isSome = true := by decide
+example : bodyValue (evalBlock [] 40 [(0, .int 4)] demoFn3.body).out = some (.verdict false 4) := by decide
+example : bodyValue (evalBlock [] 40 [(0, .int 6)] demoFn3.body).out = some (.verdict true 6) := by decide
+example : bodyValue (evalBlock [] 40 [(0, .int 3)] demoFn3.body).out = some (.opt none) := by decide
 end nonvacuity
 
 end RotoV.C08
